@@ -63,14 +63,20 @@ def check(repo, rep, tier):
     rep.rule('R16.1', 'candidate loop: whole tag row in a max-heap, <= pruning_size pops, one per iteration, early stop')
     rep.rule('R16.2', 'keep-test well-typed (LOG/PROB) and in normal form; best read before any pop')
     rep.rule('R16.3', 'option names reach struct config unchanged: CLI -> parsing.run -> kwargs -> init_config')
-    rc.r_beam(m, rep, 'R16.1')
-    rc.r_best(m, rep, 'R16.1')
-    rc.r_leaf_loop(m, rep, 'R16.1')
     leafs = m.by_kind.get('leaf', [])
     rep.check(len(leafs) == 1 and m.in_loop(leafs[0]) is m.leaf_loop, 'R16.1',
               leafs[0].where() if leafs else 'depccg/parsing.h:0 parse_sentence', 'leaf:only-from-beam',
               'leaf items enter the agenda only from the candidate loop',
-              'leaf items are pushed from %d sites' % len(leafs))
+              'leaf items are pushed from %d sites (%s): whether a tag inside the beam becomes available then depends on more than its rank and score'
+              % (len(leafs), ', '.join('line %s' % s_.line for s_ in leafs)))
+    if len(leafs) == 1:
+        rc.r_beam(m, rep, 'R16.1')
+        rc.r_best(m, rep, 'R16.1')
+        rc.r_leaf_loop(m, rep, 'R16.1')
+    elif not leafs:
+        raise AnalysisError('depccg/parsing.h: no leaf push site found')
+    rep.rule('R16.4', 'what the beam admitted stays available: the search expands every accepted entry and stops only for its budget, its n-best quota or an empty agenda')
+    rc.r_expansion_unconditional(m, rep, 'R16.4')
     rp.r_config_plumbing(repo, rep, 'R16.3')
     r_cli_flags(repo, rep)
     need = ['beta', 'use_beta', 'pruning_size']
